@@ -212,6 +212,8 @@ MODELS = {
     "SplineAlgoNeg": M("SplineAlgo-as-found-D1", "SplineAlgo.tla", "MC_SplineAlgoNeg.cfg", workers=4, expect_violation=True),
     "SplineTheorems": M("SplineTheorems", "SplineTheorems.tla", "MC_SplineTheorems.cfg", workers=2),
     "NdInterp": M("NdInterp", "NdInterp.tla", "MC_NdInterp.cfg", "MC_NdInterp_thorough.cfg", workers=8),
+    "NdInterpSpline": M("NdInterp-with-splines", "NdInterp.tla", "MC_NdInterpSpline.cfg", workers=8),
+    "NdInterp2D": M("NdInterp-2D", "NdInterp.tla", "MC_NdInterp2D.cfg", workers=8),
     "NdInterpNeg": M("NdInterp-with-shared-hint", "NdInterp.tla", "MC_NdInterpNeg.cfg", workers=8, expect_violation=True, thorough_only=True),
     "Monotone": M("Monotone", "Monotone.tla", "MC_Monotone.cfg", "MC_Monotone_thorough.cfg"),
     "MonotoneNaN": M("Monotone-with-NaN", "Monotone.tla", "MC_MonotoneNaN.cfg"),
@@ -237,17 +239,27 @@ GENS = {
     "Builder": {"name": "Gen_Builder", "module": "Gen_Builder.tla", "cfg": "Gen_Builder.cfg", "scenario": "script"},
     "Buffers": {"name": "Gen_Buffers", "module": "Gen_Buffers.tla", "cfg": "Gen_Buffers.cfg", "scenario": "script"},
     "DimTypes": {"name": "Gen_DimTypes", "module": "Gen_DimTypes.tla", "cfg": "Gen_DimTypes.cfg", "scenario": "script", "reset_every": 0},
+    # behaviours of the SYSTEM model NdInterp, stepped through the real crate (every history of the bounded universe)
+    "NdLinear": {"name": "Gen_NdInterp", "module": "Gen_NdInterp.tla", "cfg": "Gen_NdInterp.cfg", "cfg_thorough": "Gen_NdInterp_thorough.cfg",
+                 "scenario": "script", "reset_every": 0, "mark_every": 100},
+    "NdSpline": {"name": "Gen_NdInterpSpline", "module": "Gen_NdInterp.tla", "cfg": "Gen_NdInterpSpline.cfg", "cfg_thorough": "Gen_NdInterpSpline_thorough.cfg",
+                 "scenario": "script", "reset_every": 0, "mark_every": 100},
+    "Nd2D": {"name": "Gen_NdInterp2D", "module": "Gen_NdInterp.tla", "cfg": "Gen_NdInterp2D.cfg", "cfg_thorough": "Gen_NdInterp2D_thorough.cfg",
+             "scenario": "script", "reset_every": 0, "mark_every": 100},
+    # long random behaviours (2 interpolators of any kind, 40 calls) from TLC's simulation mode
+    "NdWalk": {"name": "Gen_NdInterpWalk", "module": "Gen_NdInterp.tla", "cfg": "Gen_NdInterpWalk.cfg", "scenario": "script",
+               "reset_every": 0, "mark_every": 5, "simulate": {"num": 60, "num_thorough": 600, "depth": 100}},
     "Lookup": {"name": "Gen_Lookup", "module": "Gen_Lookup.tla", "cfg": "Gen_Lookup.cfg", "cfg_thorough": "Gen_Lookup_thorough.cfg", "scenario": "lower"},
 }
 
 PROP_MODELS = {
     "C01": ["ExactQ", "Linear"],
-    "C02": ["ExactQ", "SplineAlgo"],
+    "C02": ["ExactQ", "SplineAlgo", "NdInterpSpline"],
     "C03": ["SplineAlgo", "SplineAlgoNeg"],
-    "C04": ["Bilinear"],
-    "C05": ["NdInterp"],
-    "C06": ["Linear", "Bilinear", "SplineAlgo"],
-    "C07": ["SplineTheorems"],
+    "C04": ["Bilinear", "NdInterp2D"],
+    "C05": ["NdInterp", "NdInterp2D"],
+    "C06": ["Linear", "Bilinear", "SplineAlgo", "NdInterpSpline"],
+    "C07": ["SplineTheorems", "NdInterpSpline"],
     "C08": ["Lanes", "LanesNeg", "SplineAlgo"],
     "C09": ["Buffers", "DimTypes", "NdInterp"],
     "C10": ["Builder", "Builder2", "BuilderNeg", "Builder2Neg"],
@@ -262,7 +274,8 @@ PROP_MODELS = {
     "C19": ["DimTypes", "DimTypesNeg"],
     "C20": ["Linear", "Bilinear"],
 }
-PROP_GENS = {"C12": ["Monotone"], "C11": ["Lookup"], "C10": ["Builder"], "C14": ["Buffers"], "C13": ["Buffers"], "C19": ["DimTypes"]}
+PROP_GENS = {"C12": ["Monotone"], "C11": ["Lookup"], "C10": ["Builder"], "C14": ["Buffers", "NdLinear"], "C13": ["Buffers"], "C19": ["DimTypes"],
+             "C04": ["Nd2D"], "C05": ["NdLinear", "Nd2D"], "C06": ["NdSpline"], "C07": ["NdSpline"], "C17": ["NdLinear", "NdWalk"]}
 
 for _p, _ms in PROP_MODELS.items():
     PROPS[_p]["mc"] = [MODELS[m] for m in _ms]
